@@ -1,52 +1,289 @@
-(* C14 - the executable monitor of Api/Check.v states the property: what [refs_exact_b] accepts
-   has exact references in the sense of the theorems ([refs_exact] of Api/History.v). *)
+(* C14 - the executable monitor of Api/Check.v IS the property: every boolean clause is equivalent to
+   a proposition stated through lookups ([obs_equiv], [reload_ok], [refs_ok], [guards_ok],
+   [atomic_ok]), and [refs_ok] gives [refs_exact] of Api/History.v. *)
 From Verif Require Import Api.Invariant Api.History Api.Check.
+From Verif Require Import Base.CaseCheck.
 
-Lemma nodupb_NoDup l : nodupb l = true -> NoDup l.
+(* ---------- boolean equalities decide equality ---------- *)
+Lemma status_eqb_eq a b : status_eqb a b = true <-> a = b.
+Proof. destruct a, b; simpl; split; congruence. Qed.
+Lemma prov_eqb_eq a b : prov_eqb a b = true <-> a = b.
+Proof. destruct a, b; simpl; split; congruence. Qed.
+Lemma err_eqb_eq a b : err_eqb a b = true <-> a = b.
+Proof. destruct a, b; simpl; split; congruence. Qed.
+Lemma outcome_eqb_eq a b : outcome_eqb a b = true <-> a = b.
 Proof.
-  induction l as [|a l IH]; simpl; [constructor|].
-  rewrite andb_true_iff, negb_true_iff. intros [H1 H2].
-  constructor; [apply memb_false; exact H1|apply IH; exact H2].
+  destruct a as [|x|], b as [|y|]; simpl; try (split; congruence).
+  rewrite err_eqb_eq. split; congruence.
+Qed.
+Lemma ids_eqb_eq a b : ids_eqb a b = true <-> a = b.
+Proof. apply list_eqb_eq. intros x y. apply Nat.eqb_eq. Qed.
+Lemma dlq_eqb_eq a b : dlq_eqb a b = true <-> a = b.
+Proof.
+  destruct a, b; unfold dlq_eqb; simpl. rewrite !andb_true_iff, !Nat.eqb_eq, !Z.eqb_eq.
+  split; [intros [[[-> ->] ->] ->]; reflexivity|intros E; inversion E; auto].
+Qed.
+Lemma pipeline_eqb_eq a b : pipeline_eqb a b = true <-> a = b.
+Proof.
+  destruct a, b; unfold pipeline_eqb; simpl.
+  rewrite !andb_true_iff, !Nat.eqb_eq, status_eqb_eq, prov_eqb_eq, dlq_eqb_eq, !ids_eqb_eq.
+  split; [intros [[[[[[[[-> ->] ->] ->] ->] ->] ->] ->] ->]; reflexivity|intros E; inversion E; repeat split; auto].
+Qed.
+Lemma connector_eqb_eq a b : connector_eqb a b = true <-> a = b.
+Proof.
+  destruct a, b; unfold connector_eqb; simpl.
+  rewrite !andb_true_iff, !Nat.eqb_eq, prov_eqb_eq, !ids_eqb_eq.
+  split; [intros [[[[[[[[[-> ->] ->] ->] ->] ->] ->] ->] ->] ->]; reflexivity|intros E; inversion E; repeat split; auto].
+Qed.
+Lemma processor_eqb_eq a b : processor_eqb a b = true <-> a = b.
+Proof.
+  destruct a, b; unfold processor_eqb; simpl.
+  rewrite !andb_true_iff, !Nat.eqb_eq, prov_eqb_eq, Z.eqb_eq.
+  split; [intros [[[[[[[[-> ->] ->] ->] ->] ->] ->] ->] ->]; reflexivity|intros E; inversion E; repeat split; auto].
 Qed.
 
-Lemma forallb_In {A} (g : A -> bool) l x : forallb g l = true -> In x l -> g x = true.
-Proof. intros H HI. rewrite forallb_forall in H. apply H; exact HI. Qed.
-
-Theorem refs_exact_b_sound s : refs_exact_b s = true -> refs_exact s.
+Lemma opt_eqb_eq {V} (eqb : V -> V -> bool) :
+  (forall a b, eqb a b = true <-> a = b) -> forall a b, opt_eqb eqb a b = true <-> a = b.
 Proof.
-  unfold refs_exact_b. rewrite !andb_true_iff. intros [[HP HC] HR].
-  assert (P : forall k p, lookup k (pm s) = Some p ->
-     k = p_id p /\ NoDup (p_conns p) /\ NoDup (p_procs p)
-     /\ (forall c, In c (p_conns p) -> exists cn, lookup c (cm s) = Some cn /\ c_pipeline cn = p_id p)
-     /\ (forall r, In r (p_procs p) -> exists pr, lookup r (rm s) = Some pr /\ r_ptype pr = 2 /\ r_parent pr = p_id p)).
-  { intros k p H. apply lookup_In in H. pose proof (forallb_In _ _ _ HP H) as E. simpl in E.
-    rewrite !andb_true_iff in E. destruct E as [[[[E1 E2] E3] E4] E5].
-    apply Nat.eqb_eq in E1. repeat split; auto using nodupb_NoDup.
-    - intros c HI. pose proof (forallb_In _ _ _ E4 HI) as E. simpl in E.
-      destruct (lookup c (cm s)) as [cn|]; [|discriminate]. apply Nat.eqb_eq in E. eauto.
-    - intros r HI. pose proof (forallb_In _ _ _ E5 HI) as E. simpl in E.
-      destruct (lookup r (rm s)) as [pr|]; [|discriminate]. rewrite andb_true_iff, !Nat.eqb_eq in E. destruct E. eauto. }
-  assert (C : forall k c, lookup k (cm s) = Some c ->
-     k = c_id c /\ NoDup (c_procs c)
-     /\ (exists p, lookup (c_pipeline c) (pm s) = Some p /\ In (c_id c) (p_conns p))
-     /\ (forall r, In r (c_procs c) -> exists pr, lookup r (rm s) = Some pr /\ r_ptype pr = 1 /\ r_parent pr = c_id c)).
-  { intros k c H. apply lookup_In in H. pose proof (forallb_In _ _ _ HC H) as E. simpl in E.
-    rewrite !andb_true_iff in E. destruct E as [[[E1 E2] E3] E4].
-    apply Nat.eqb_eq in E1. repeat split; auto using nodupb_NoDup.
-    - destruct (lookup (c_pipeline c) (pm s)) as [p|]; [|discriminate]. apply memb_In in E3. eauto.
-    - intros r HI. pose proof (forallb_In _ _ _ E4 HI) as E. simpl in E.
-      destruct (lookup r (rm s)) as [pr|]; [|discriminate]. rewrite andb_true_iff, !Nat.eqb_eq in E. destruct E. eauto. }
-  constructor.
+  intros H [x|] [y|]; simpl; try (split; congruence).
+  rewrite H. split; congruence.
+Qed.
+
+(* ---------- maps and sets ---------- *)
+Lemma lookup_notin {V} (l : list (id * V)) k : ~ In k (map fst l) -> lookup k l = None.
+Proof.
+  induction l as [|[k2 v2] l IH]; simpl; [reflexivity|]. intros H.
+  destruct (Nat.eqb_spec k2 k); [tauto|]. apply IH. tauto.
+Qed.
+
+Lemma map_eqb_iff {V} (eqb : V -> V -> bool) :
+  (forall a b, eqb a b = true <-> a = b) -> forall l1 l2, map_eqb eqb l1 l2 = true <-> meq l1 l2.
+Proof.
+  intros H l1 l2. unfold map_eqb. rewrite forallb_forall. split.
+  - intros A k. destruct (in_dec Nat.eq_dec k (map fst l1 ++ map fst l2)) as [HI|HN].
+    + apply (opt_eqb_eq eqb H). apply A. exact HI.
+    + rewrite in_app_iff in HN. rewrite !lookup_notin by tauto. reflexivity.
+  - intros E k _. apply (opt_eqb_eq eqb H). apply E.
+Qed.
+
+Lemma set_eqb_iff l1 l2 : set_eqb l1 l2 = true <-> sameset l1 l2.
+Proof.
+  unfold set_eqb. rewrite andb_true_iff, !forallb_forall. split.
+  - intros [A B] n. destruct (memb n l1) eqn:M1.
+    + symmetry. apply A. apply memb_In. exact M1.
+    + destruct (memb n l2) eqn:M2; [|reflexivity]. rewrite (B n) in M1; [discriminate|apply memb_In; exact M2].
+  - intros E. split; intros n HI; apply memb_In in HI; [rewrite <- E|rewrite E]; exact HI.
+Qed.
+
+Lemma forallb_entries {V} (g : id * V -> bool) (l : list (id * V)) :
+  forallb g (entries l) = true <-> forall k v, lookup k l = Some v -> g (k, v) = true.
+Proof.
+  rewrite forallb_forall. split.
+  - intros A k v H. apply A. apply entries_In. exact H.
+  - intros A [k v] HI. apply A. apply entries_In. exact HI.
+Qed.
+
+Lemma nodupb_iff l : nodupb l = true <-> NoDup l.
+Proof.
+  induction l as [|a l IH]; simpl; [split; [constructor|reflexivity]|].
+  rewrite andb_true_iff, negb_true_iff, memb_false, IH. split.
+  - intros [A B]; constructor; auto.
+  - intros A; inversion A; auto.
+Qed.
+
+(* ---------- state equality as the monitor sees it ---------- *)
+Record obs_equiv (a b : state) : Prop := mkObsEq {
+  oe_pm : meq (pm a) (pm b); oe_cm : meq (cm a) (cm b); oe_rm : meq (rm a) (rm b);
+  oe_names : sameset (names a) (names b);
+  oe_ps : meq (norm_map (ps a)) (norm_map (ps b)); oe_cs : meq (cs a) (cs b); oe_rs : meq (rs a) (rs b) }.
+
+Theorem state_eqb_iff a b : state_eqb a b = true <-> obs_equiv a b.
+Proof.
+  unfold state_eqb. rewrite !andb_true_iff.
+  rewrite !(map_eqb_iff pipeline_eqb pipeline_eqb_eq), !(map_eqb_iff connector_eqb connector_eqb_eq),
+          !(map_eqb_iff processor_eqb processor_eqb_eq), set_eqb_iff.
+  split; [intros [[[[[[? ?] ?] ?] ?] ?] ?]; constructor; auto|intros []; repeat split; auto].
+Qed.
+
+(* ---------- reload ---------- *)
+Record reload_ok (s : state) : Prop := mkReloadOk {
+  ro_p : meq (norm_map (pm s)) (norm_map (ps s));
+  ro_c : meq (cm s) (cs s);
+  ro_r : meq (rm s) (rs s);
+  ro_n : sameset (names s) (map (fun kv => p_name (snd kv)) (entries (ps s))) }.
+
+Theorem mem_eq_reload_b_iff s : mem_eq_reload_b s = true <-> reload_ok s.
+Proof.
+  unfold mem_eq_reload_b. rewrite !andb_true_iff.
+  rewrite (map_eqb_iff pipeline_eqb pipeline_eqb_eq), (map_eqb_iff connector_eqb connector_eqb_eq),
+          (map_eqb_iff processor_eqb processor_eqb_eq), set_eqb_iff.
+  split; [intros [[[? ?] ?] ?]; constructor; auto|intros []; repeat split; auto].
+Qed.
+
+(* ---------- references ---------- *)
+Definition pl_refs (s : state) (k : id) (p : pipeline) : Prop :=
+  k = p_id p /\ NoDup (p_conns p) /\ NoDup (p_procs p)
+  /\ (forall c, In c (p_conns p) -> exists cn, lookup c (cm s) = Some cn /\ c_pipeline cn = p_id p)
+  /\ (forall r, In r (p_procs p) -> exists pr, lookup r (rm s) = Some pr /\ r_ptype pr = 2 /\ r_parent pr = p_id p).
+Definition cn_refs (s : state) (k : id) (c : connector) : Prop :=
+  k = c_id c /\ NoDup (c_procs c)
+  /\ (exists p, lookup (c_pipeline c) (pm s) = Some p /\ In (c_id c) (p_conns p))
+  /\ (forall r, In r (c_procs c) -> exists pr, lookup r (rm s) = Some pr /\ r_ptype pr = 1 /\ r_parent pr = c_id c).
+Definition pr_refs (s : state) (k : id) (r : processor) : Prop :=
+  k = r_id r
+  /\ ((r_ptype r = 2 /\ exists p, lookup (r_parent r) (pm s) = Some p /\ In (r_id r) (p_procs p))
+      \/ (r_ptype r = 1 /\ exists c, lookup (r_parent r) (cm s) = Some c /\ In (r_id r) (c_procs c))).
+Record refs_ok (s : state) : Prop := mkRefsOk {
+  rk_p : forall k p, lookup k (pm s) = Some p -> pl_refs s k p;
+  rk_c : forall k c, lookup k (cm s) = Some c -> cn_refs s k c;
+  rk_r : forall k r, lookup k (rm s) = Some r -> pr_refs s k r }.
+
+Lemma forallb_In_iff {A} (g : A -> bool) l : forallb g l = true <-> forall x, In x l -> g x = true.
+Proof. apply forallb_forall. Qed.
+
+Lemma pl_refs_b_iff s k p : pl_refs_b s k p = true <-> pl_refs s k p.
+Proof.
+  unfold pl_refs_b, pl_refs. rewrite !andb_true_iff, Nat.eqb_eq, !nodupb_iff, !forallb_In_iff.
+  split.
+  - intros [[[[E N1] N2] A] B]. repeat split; auto.
+    + intros c HI. specialize (A c HI). destruct (lookup c (cm s)) as [cn|]; [|discriminate].
+      apply Nat.eqb_eq in A. eauto.
+    + intros r HI. specialize (B r HI). destruct (lookup r (rm s)) as [pr|]; [|discriminate].
+      rewrite andb_true_iff, !Nat.eqb_eq in B. destruct B. eauto.
+  - intros (E & N1 & N2 & A & B). repeat split; auto.
+    + intros c HI. destruct (A c HI) as (cn & -> & Ec). apply Nat.eqb_eq. exact Ec.
+    + intros r HI. destruct (B r HI) as (pr & -> & E1 & E2). rewrite andb_true_iff, !Nat.eqb_eq. auto.
+Qed.
+
+Lemma cn_refs_b_iff s k c : cn_refs_b s k c = true <-> cn_refs s k c.
+Proof.
+  unfold cn_refs_b, cn_refs. rewrite !andb_true_iff, Nat.eqb_eq, nodupb_iff, forallb_In_iff.
+  split.
+  - intros [[[E N1] A] B]. repeat split; auto.
+    + destruct (lookup (c_pipeline c) (pm s)) as [p|]; [|discriminate]. apply memb_In in A. eauto.
+    + intros r HI. specialize (B r HI). destruct (lookup r (rm s)) as [pr|]; [|discriminate].
+      rewrite andb_true_iff, !Nat.eqb_eq in B. destruct B. eauto.
+  - intros (E & N1 & (p & -> & HI) & B). repeat split; auto.
+    + apply memb_In. exact HI.
+    + intros r HI'. destruct (B r HI') as (pr & -> & E1 & E2). rewrite andb_true_iff, !Nat.eqb_eq. auto.
+Qed.
+
+Lemma pr_refs_b_iff s k r : pr_refs_b s k r = true <-> pr_refs s k r.
+Proof.
+  unfold pr_refs_b, pr_refs. rewrite andb_true_iff, Nat.eqb_eq.
+  split.
+  - intros [E A]. split; [exact E|].
+    destruct (Nat.eqb_spec (r_ptype r) 2) as [T2|N2].
+    + left. split; [exact T2|]. destruct (lookup (r_parent r) (pm s)) as [p|]; [|discriminate]. apply memb_In in A. eauto.
+    + destruct (Nat.eqb_spec (r_ptype r) 1) as [T1|N1]; [|discriminate].
+      right. split; [exact T1|]. destruct (lookup (r_parent r) (cm s)) as [c|]; [|discriminate]. apply memb_In in A. eauto.
+  - intros [E [(T & p & H & HI)|(T & c & H & HI)]]; (split; [exact E|]); rewrite T; simpl; rewrite H; apply memb_In; exact HI.
+Qed.
+
+Theorem refs_exact_b_iff s : refs_exact_b s = true <-> refs_ok s.
+Proof.
+  unfold refs_exact_b. rewrite !andb_true_iff, !forallb_entries. simpl.
+  split.
+  - intros [[A B] C]. constructor; intros k v H.
+    + apply pl_refs_b_iff. apply (A k v H).
+    + apply cn_refs_b_iff. apply (B k v H).
+    + apply pr_refs_b_iff. apply (C k v H).
+  - intros [A B C]. repeat split; intros k v H.
+    + apply pl_refs_b_iff. apply (A k v H).
+    + apply cn_refs_b_iff. apply (B k v H).
+    + apply pr_refs_b_iff. apply (C k v H).
+Qed.
+
+Lemma refs_ok_exact s : refs_ok s -> refs_exact s.
+Proof.
+  intros [P C R]. constructor.
   - intros k p c H HI. destruct (P k p H) as (-> & _ & _ & Q & _). eauto.
   - intros k c H. destruct (C k c H) as (-> & _ & Q & _). exact Q.
   - intros k p r H HI. destruct (P k p H) as (-> & _ & _ & _ & Q). eauto.
   - intros k c r H HI. destruct (C k c H) as (-> & _ & _ & Q). eauto.
-  - intros k r H. apply lookup_In in H. pose proof (forallb_In _ _ _ HR H) as E. simpl in E.
-    rewrite andb_true_iff in E. destruct E as [E1 E2]. apply Nat.eqb_eq in E1. subst k.
-    destruct (Nat.eqb_spec (r_ptype r) 2) as [T2|N2].
-    + left. split; [exact T2|]. destruct (lookup (r_parent r) (pm s)) as [p|]; [|discriminate]. apply memb_In in E2. eauto.
-    + destruct (Nat.eqb_spec (r_ptype r) 1) as [T1|N1]; [|discriminate].
-      right. split; [exact T1|]. destruct (lookup (r_parent r) (cm s)) as [c|]; [|discriminate]. apply memb_In in E2. eauto.
+  - intros k r H. destruct (R k r H) as (-> & Q). exact Q.
   - intros k p H. destruct (P k p H) as (_ & Q1 & Q2 & _). auto.
   - intros k c H. destruct (C k c H) as (_ & Q & _). exact Q.
+Qed.
+
+Theorem refs_exact_b_sound s : refs_exact_b s = true -> refs_exact s.
+Proof. intros H. apply refs_ok_exact, refs_exact_b_iff, H. Qed.
+
+(* ---------- guards ---------- *)
+Definition cn_kept (pid : id) (l from : list (id * connector)) : Prop :=
+  forall k c, lookup k l = Some c -> c_pipeline c = pid -> lookup k from = Some c.
+Definition pr_kept (pid : id) (s : state) (l from : list (id * processor)) : Prop :=
+  forall k r, lookup k l = Some r -> owner_pr s r = Some pid -> lookup k from = Some r.
+
+(* the guarded pipeline [p], its connectors and its processors are the same before ([a]) and after
+   ([b]) the call, in memory and in the store, and nothing new belongs to it *)
+Record slice_same (p : pipeline) (a b : state) : Prop := mkSliceSame {
+  ss_p : lookup (p_id p) (pm b) = Some p;
+  ss_ps : lookup (p_id p) (norm_map (ps b)) = lookup (p_id p) (norm_map (ps a));
+  ss_c1 : cn_kept (p_id p) (cm b) (cm a); ss_c2 : cn_kept (p_id p) (cm a) (cm b);
+  ss_c3 : cn_kept (p_id p) (cs b) (cs a); ss_c4 : cn_kept (p_id p) (cs a) (cs b);
+  ss_r1 : pr_kept (p_id p) b (rm b) (rm a); ss_r2 : pr_kept (p_id p) a (rm a) (rm b);
+  ss_r3 : pr_kept (p_id p) b (rs b) (rs a); ss_r4 : pr_kept (p_id p) a (rs a) (rs b) }.
+Definition guards_ok (a b : state) : Prop :=
+  forall k p, lookup k (pm a) = Some p -> guarded p = true -> slice_same p a b.
+
+Lemma cn_kept_b_iff pid l from : cn_kept_b pid l from = true <-> cn_kept pid l from.
+Proof.
+  unfold cn_kept_b, cn_kept. rewrite forallb_entries. simpl. split.
+  - intros A k c H E. specialize (A k c H). rewrite (proj2 (Nat.eqb_eq _ _) E) in A.
+    apply (opt_eqb_eq connector_eqb connector_eqb_eq). exact A.
+  - intros A k c H. destruct (Nat.eqb_spec (c_pipeline c) pid) as [E|N]; [|reflexivity].
+    apply (opt_eqb_eq connector_eqb connector_eqb_eq). apply A; assumption.
+Qed.
+
+Lemma opt_nat_eqb_eq a b : opt_eqb Nat.eqb a b = true <-> a = b.
+Proof. apply opt_eqb_eq. intros x y. apply Nat.eqb_eq. Qed.
+
+Lemma pr_kept_b_iff pid s l from : pr_kept_b pid s l from = true <-> pr_kept pid s l from.
+Proof.
+  unfold pr_kept_b, pr_kept. rewrite forallb_entries. simpl. split.
+  - intros A k r H E. specialize (A k r H). rewrite (proj2 (opt_nat_eqb_eq _ _) E) in A.
+    apply (opt_eqb_eq processor_eqb processor_eqb_eq). exact A.
+  - intros A k r H. destruct (opt_eqb Nat.eqb (owner_pr s r) (Some pid)) eqn:E; [|reflexivity].
+    apply (opt_eqb_eq processor_eqb processor_eqb_eq). apply A; [assumption|apply opt_nat_eqb_eq; exact E].
+Qed.
+
+Lemma slice_same_b_iff p a b : slice_same_b p a b = true <-> slice_same p a b.
+Proof.
+  unfold slice_same_b. rewrite !andb_true_iff, !cn_kept_b_iff, !pr_kept_b_iff,
+    !(opt_eqb_eq pipeline_eqb pipeline_eqb_eq).
+  split; [intros [[[[[[[[[? ?] ?] ?] ?] ?] ?] ?] ?] ?]; constructor; auto|intros []; repeat split; auto].
+Qed.
+
+Theorem guards_b_iff a b : guards_b a b = true <-> guards_ok a b.
+Proof.
+  unfold guards_b, guards_ok. rewrite forallb_entries. simpl. split.
+  - intros A k p H G. specialize (A k p H). rewrite G in A. apply slice_same_b_iff. exact A.
+  - intros A k p H. destruct (guarded p) eqn:G; [|reflexivity]. apply slice_same_b_iff. eauto.
+Qed.
+
+(* ---------- all-or-nothing ---------- *)
+Definition atomic_ok (a : state) (o : op) (out : outcome) (b : state) : Prop :=
+  (out = OOk /\ fst (spec_step a o) = OOk /\ obs_equiv b (snd (spec_step a o)))
+  \/ (exists e, out = OErr e /\ obs_equiv b a).
+
+Theorem atomic_b_iff a o out b : atomic_b a o out b = true <-> atomic_ok a o out b.
+Proof.
+  unfold atomic_b, atomic_ok. destruct out as [|e|].
+  - destruct (spec_step a o) as [out2 s2]. simpl.
+    rewrite andb_true_iff, outcome_eqb_eq, state_eqb_iff. split.
+    + intros [E1 E2]. left. auto.
+    + intros [(_ & E1 & E2)|(e & E & _)]; [auto|discriminate].
+  - rewrite state_eqb_iff. split.
+    + intros E. right. eauto.
+    + intros [(E & _)|(e' & _ & E)]; [discriminate|exact E].
+  - split; [discriminate|]. intros [(E & _)|(e & E & _)]; discriminate.
+Qed.
+
+(* the whole monitor of one call *)
+Theorem monitor_step_iff a o out b :
+  monitor_step a o out b = true <-> atomic_ok a o out b /\ reload_ok b /\ refs_ok b /\ guards_ok a b.
+Proof.
+  unfold monitor_step. rewrite !andb_true_iff, atomic_b_iff, mem_eq_reload_b_iff, refs_exact_b_iff, guards_b_iff.
+  tauto.
 Qed.
